@@ -39,6 +39,10 @@ pub(crate) fn generate_pipeline(
         for argument in &mut argument_buffer.0 {
             argument.metadata.is_used =
                 all_used_globals.contains(&ImplicitFunctionParameter::Global(argument.id));
+
+            // Report the name the argument buffer member is declared with
+            // This is not the source name if that is reserved in MSL (and matches what the HLSL exporter reports)
+            argument.metadata.name = context.get_global_name(argument.id)?.to_string();
         }
     }
 
